@@ -334,12 +334,30 @@ func VerifC01Storm() {
 	db.UpdateNodePeers(client, hosts, 0)
 	verifapi.SetNow(t0.Add(30 * time.Second))
 	before := w.total()
+	credit := func(id store.NodeID) *big.Int {
+		b, _ := db.GetNodeBalance(id)
+		return new(big.Int).Set(&b.Credit)
+	}
+	var was []*big.Int
+	for _, id := range w.nodes {
+		was = append(was, credit(id))
+	}
 	verifapi.KVStorm(verifapi.Param("conflict_storm", 6))
 	_, err := pool.VerifUpdate(w.p, context.Background(), string(client), hosts...)
 	verifapi.KVStorm(0)
 	verifapi.Reach("c01.storm")
 	if err != nil {
 		verifapi.Observe("update-error", err.Error())
+	} else {
+		// C02: 30 s at 60 per minute = 30 per active host, debited from the client exactly once each
+		for i, id := range w.nodes {
+			delta := new(big.Int).Sub(credit(id), was[i])
+			want := big.NewInt(30)
+			if i == 0 {
+				want = big.NewInt(int64(-30 * nh))
+			}
+			verifapi.Assert(delta.Cmp(want) == 0, "c02.storm.each-peer-credited-once-client-debited-the-sum")
+		}
 	}
 	verifapi.Assert(w.total().Cmp(before) == 0, "c01.sum-preserved")
 	verifapi.Assert(w.total().Cmp(w.statsTotal()) == 0, "c01.stats-total-is-true-sum-after")
